@@ -346,6 +346,17 @@ Theorem C06_vv_redelivery_noop : forall s from to res d phys res' phys', CInv s 
 Proof. exact redelivery_noop. Qed.
 Print Assumptions C06_vv_redelivery_noop.
 
+(* ---- RAW re-delivery (the revision handed to the write path again, without the negotiation): a revision the stored
+   vector already knows is answered "already present" and nothing is stored -- unless incoming and stored document are
+   both tombstones (recorded finding vv:redelivered-tombstone-rewritten; C06_Refuted.C06_raw_tombstone_redelivery_refuted) ---- *)
+Theorem C06_vv_raw_redelivery_cancelled : forall res me phys clk i l, src (d_hlv l) <> 0 ->
+  dominates (d_hlv l) (cv (d_hlv i)) = true ->
+  (cv (d_hlv l) = cv (d_hlv i) \/ dominates (d_hlv i) (cv (d_hlv l)) = false) ->
+  VVG.unsendable i = false -> d_del i && d_del l = false ->
+  gput res me phys clk i l = (Some l, GCancelled, clk).
+Proof. exact raw_redelivery_cancelled. Qed.
+Print Assumptions C06_vv_raw_redelivery_cancelled.
+
 (* ---- non-vacuity: a history with an equal-generation conflict resolved as "remote wins" on document 0
    and a "local wins" on document 1 (longer local branch), with a concrete collision-free digest ---- *)
 Definition ex_ops : list op :=
